@@ -169,6 +169,8 @@ def check_config(ctx, F, tag):
     # ---------------- R3 co-mutation
     check_comutation(ctx, F, tag)
     check_noop_and_flush(ctx, F, tag)
+    import c07
+    c07.check_rl_block_fit(ctx, F, tag, "C16.R6")      # "builds what was accepted": an accepted run is encoded whole
 
     # ---------------- R4 set_len only extends; observers are getters
     b = F.body(RB + "::set_len")
